@@ -48,8 +48,10 @@ Via == {"new", "reg", "ocidir", "regplat", "regdata"}
 \* there is one), ref, header; ref_first = the ref before the descriptor; mt_desc = the descriptor also
 \* carries media type and size - and is given, without a digest, when no digest is expected from it -
 \* after the ref; mt_desc_first = the same before the ref
-Forms == {"std", "ref_first", "mt_desc", "mt_desc_first"}
-FormsOf(via) == IF via = "new" THEN Forms ELSE {"std"}
+\* size_desc = a descriptor (with the digest, if one is expected from it) that states a wrong size;
+\* size_entry (layout) = the entry of index.json states a wrong size
+Forms == {"std", "ref_first", "mt_desc", "mt_desc_first", "size_desc", "size_entry"}
+FormsOf(via) == IF via = "new" THEN Forms \ {"size_entry"} ELSE IF via = "ocidir" THEN {"std", "size_entry"} ELSE {"std"}
 FetchScenarios ==
   {x \in {[kind |-> k, variant |-> v, desc |-> d, ref |-> r, hdr |-> h, hdrmt |-> m, via |-> via, form |-> f] :
             k \in Kinds, v \in Variants, d \in Src, r \in Src, h \in Src, m \in HdrMT, via \in Via, f \in Forms}
